@@ -650,8 +650,9 @@ def normalize_merchant(
                 result_pattern = pattern
                 result_source = source
 
-        except (re.error, expr_parser.ExpressionError):
-            # Invalid pattern, skip
+        except (re.error, OverflowError, RecursionError, expr_parser.ExpressionError):
+            # Invalid pattern, skip (a repeat count >= 2**32 fails to compile with OverflowError,
+            # deeply nested groups with RecursionError - not with re.error)
             continue
 
     # Return matched result with all collected tags (deduplicated, order preserved)
@@ -864,7 +865,7 @@ def explain_description(
             result['subcategory'] = subcategory
             return result
 
-        except (re.error, expr_parser.ExpressionError):
+        except (re.error, OverflowError, RecursionError, expr_parser.ExpressionError):
             continue
 
     # No match - unknown merchant
